@@ -1253,6 +1253,9 @@ def _literal_value(node: ast.AST) -> bool:
 
     # For e.g. "".join(("1", "2"))
     if match_template(node, ast.Call(func=ast.Attribute(value=ast.Constant), keywords=[])):
+        if node.func.attr.startswith("_"):
+            # "a".__hash__() is hash("a"), which is another number in every process
+            raise ValueError("The value may say something about the process rather than the constant")
         node_value = literal_value(node.func.value)
         args = [literal_value(arg) for arg in node.args]
         if _reveals_set_order(node.func.attr, args):
